@@ -1,7 +1,9 @@
 package rules
 
 import (
+	"go/token"
 	"go/types"
+	"sort"
 	"strings"
 
 	. "abverif/internal/engine"
@@ -163,6 +165,9 @@ func (c *Ctx) rootOf(v ssa.Value, d int) []rootInfo {
 func isSharedStruct(t types.Type) string {
 	s := Short(t.String())
 	s = strings.TrimPrefix(s, "*")
+	if componentTypes[s] {
+		return s
+	}
 	switch {
 	case s == "ab.Authboss" || s == "ab.Config" || s == "ab.Events":
 		return s
@@ -172,6 +177,59 @@ func isSharedStruct(t types.Type) string {
 		return s
 	}
 	return ""
+}
+
+// componentTypes: repository types that implement one of the interfaces the
+// configuration holds (hasher, token generator, mailer, ...): one value of
+// them is installed in the instance and serves every request.
+var componentTypes = map[string]bool{}
+
+func (c *Ctx) findComponentTypes() {
+	root := c.P.ByPath[RepoPath]
+	cfg := root.Pkg.Scope().Lookup("Config")
+	if cfg == nil {
+		AnchorFail("anchor type authboss.Config not found")
+	}
+	var ifaces []*types.Interface
+	seen := map[types.Type]bool{}
+	var walk func(t types.Type)
+	walk = func(t types.Type) {
+		if seen[t] {
+			return
+		}
+		seen[t] = true
+		switch u := t.Underlying().(type) {
+		case *types.Struct:
+			for i := 0; i < u.NumFields(); i++ {
+				walk(u.Field(i).Type())
+			}
+		case *types.Interface:
+			if u.NumMethods() > 0 {
+				ifaces = append(ifaces, u)
+			}
+		}
+	}
+	walk(cfg.Type())
+	for path, sp := range c.P.ByPath {
+		if strings.HasSuffix(path, "/mocks") {
+			continue
+		}
+		for _, m := range sp.Members {
+			tn, ok := m.(*ssa.Type)
+			if !ok {
+				continue
+			}
+			named := tn.Type()
+			if _, isStruct := named.Underlying().(*types.Struct); !isStruct {
+				continue
+			}
+			for _, it := range ifaces {
+				if types.Implements(named, it) || types.Implements(types.NewPointer(named), it) {
+					componentTypes[Short(named.String())] = true
+				}
+			}
+		}
+	}
 }
 
 // requestOwnedCalls: calls whose result is an object owned by the current request.
@@ -205,6 +263,13 @@ func C20(c *Ctx) {
 	r := c.R
 	r.Explanation = "Static ownership/effect analysis for C20 over every package: (1) OWN: in every function that can run at request time (everything except the explicit init-time table: constructors, Init/Setup, handler/route registration, package initialisers, and the wiring-time layers of middleware constructors) every memory write — store through a pointer, map update, slice element store — is classified by the root of its address: locals, fresh allocations, the request, its context values, the per-request response writer, parameters of non-shared type and results of per-request constructors are request-owned; package-level variables, fields of the instance (Authboss, Config, Events), of module structs and of default components, and variables captured from init-time scope are shared, and a write to them is a violation; (2) UNSAFE-USE: a method call on a *math/rand.Rand (or another non-concurrency-safe object: *bytes.Buffer, *strings.Builder, hash.Hash) that is held in shared state must lie between Lock and (deferred) Unlock of one sync.Mutex in the same function; (3) the goroutines the library starts receive only a context, strings and freshly built string slices — no ResponseWriter, *Request or user object; (4) the default log mailer and logger emit each mail / log line with a single Write/Fprintf on the shared writer (so concurrent mails cannot interleave); the event handler lists and module table are written only at init time."
 	r.NotDecided = []string{"races inside integrator-supplied components and inside the standard library", "logical isolation of clients through shared storage (integrator)", "schedules: the analysis is schedule-independent by construction (no shared write exists to be scheduled)"}
+	c.findComponentTypes()
+	var comps []string
+	for k := range componentTypes {
+		comps = append(comps, k)
+	}
+	sort.Strings(comps)
+	r.Extra["component_types"] = comps
 	nFn, nWrites := 0, 0
 	var initTable []string
 	for _, fn := range c.P.Funcs {
@@ -246,6 +311,7 @@ func C20(c *Ctx) {
 		r.Ok("C20.own", "all request-time functions", "writes", "-", sprintf("%d writes in %d request-time functions classified; none targets shared state (violations are listed individually)", nWrites, nFn))
 	}
 	c.unsafeUse()
+	c.globalShare()
 	c.goArgs()
 	c.singleWrite()
 	c.registriesInitOnly()
@@ -524,5 +590,198 @@ func (c *Ctx) registriesInitOnly() {
 	}
 	if n == 0 {
 		r.Unknown("C20.registries", "", "tables", "-", "no write to the event/module tables found")
+	}
+}
+
+// immutableGlobalType: values of these types can be read by any number of
+// requests at once.
+func immutableGlobalType(t types.Type) bool {
+	switch u := t.Underlying().(type) {
+	case *types.Basic, *types.Signature:
+		return true
+	case *types.Array:
+		return immutableGlobalType(u.Elem())
+	case *types.Struct:
+		ts := t.String()
+		if ts == "sync.Mutex" || ts == "sync.RWMutex" || ts == "sync.Once" {
+			return true
+		}
+		for i := 0; i < u.NumFields(); i++ {
+			if !immutableGlobalType(u.Field(i).Type()) {
+				return false
+			}
+		}
+		return true
+	case *types.Interface:
+		return t.String() == "error"
+	case *types.Pointer:
+		switch t.String() {
+		case "*regexp.Regexp", "*text/template.Template", "*html/template.Template", "*strings.Replacer", "*time.Location":
+			return true // documented safe for concurrent use
+		}
+	}
+	return false
+}
+
+// globalShare: a package-level variable holding a mutable object (map, slice,
+// pointer, pool) is one object for every request. Request-time code may read
+// through it; handing it to other code (call argument, return value, stored
+// into another object) lets that code write it, and an object recycled
+// through a sync.Pool must have every field reset.
+func (c *Ctx) globalShare() {
+	r := c.R
+	n := 0
+	for _, fn := range c.P.Funcs {
+		if !c.isRequestTime(fn) {
+			continue
+		}
+		name := FuncName(fn)
+		for _, b := range fn.Blocks {
+			for _, in := range b.Instrs {
+				// sync.Pool.Get
+				if call, ok := in.(*ssa.Call); ok && Callee(call) == "(*sync.Pool).Get" {
+					n++
+					c.poolReset(fn, call)
+					continue
+				}
+				ld, ok := in.(*ssa.UnOp)
+				if !ok || ld.Op != token.MUL {
+					continue
+				}
+				g, ok := ld.X.(*ssa.Global)
+				if !ok || g.Pkg == nil || c.P.ByPath[g.Pkg.Pkg.Path()] == nil {
+					continue
+				}
+				if immutableGlobalType(ld.Type()) {
+					continue
+				}
+				n++
+				gname := Short(g.Pkg.Pkg.Path()) + "." + g.Name()
+				if how, at := escapes(ld, 0); how != "" {
+					r.Bad("C20.global-share", name, gname+" handed on", posf(c, at), "the mutable package-level "+ld.Type().String()+" "+gname+" is one object shared by every request, and request-time code hands it on ("+how+"): whatever receives it can write it while another request reads or writes it")
+				} else {
+					r.Ok("C20.global-share", name, gname+" read only", posf(c, ld), "only indexed, ranged over, measured or compared here")
+				}
+			}
+		}
+	}
+	r.Extra["mutable_global_uses"] = n
+}
+
+// escapes reports how a value leaves read-only use.
+func escapes(v ssa.Value, d int) (string, ssa.Instruction) {
+	if v.Referrers() == nil || d > 6 {
+		return "", nil
+	}
+	for _, ref := range *v.Referrers() {
+		switch x := ref.(type) {
+		case *ssa.Lookup, *ssa.Range, *ssa.Index, *ssa.BinOp, *ssa.DebugRef, *ssa.If:
+			continue
+		case *ssa.IndexAddr:
+			// element address: reading through it is fine, storing is caught by the ownership rule
+			continue
+		case *ssa.Phi:
+			if how, at := escapes(x, d+1); how != "" {
+				return how, at
+			}
+		case *ssa.ChangeType:
+			if how, at := escapes(x, d+1); how != "" {
+				return how, at
+			}
+		case *ssa.Call:
+			if b, ok := x.Call.Value.(*ssa.Builtin); ok && (b.Name() == "len" || b.Name() == "cap") {
+				continue
+			}
+			return "argument of " + Callee(x), x
+		case *ssa.MapUpdate:
+			if x.Map == v {
+				continue // a write: reported by the ownership rule
+			}
+			return "stored into a map", x
+		case *ssa.Store:
+			if x.Addr == v {
+				continue
+			}
+			return "stored into another object", x
+		case *ssa.Return:
+			return "returned to the caller", x
+		case *ssa.MakeInterface:
+			return "converted to an interface value", x
+		case *ssa.MakeClosure:
+			return "captured by a closure", x
+		default:
+			return sprintf("%T", ref), ref
+		}
+	}
+	return "", nil
+}
+
+// poolReset: the object taken from a sync.Pool was used by an earlier request.
+func (c *Ctx) poolReset(fn *ssa.Function, get *ssa.Call) {
+	r := c.R
+	name := FuncName(fn)
+	// find the type assertion(s) on the result
+	var objs []ssa.Value
+	if get.Referrers() != nil {
+		for _, ref := range *get.Referrers() {
+			if ta, ok := ref.(*ssa.TypeAssert); ok {
+				if ta.CommaOk {
+					if ta.Referrers() != nil {
+						for _, e := range *ta.Referrers() {
+							if ex, ok := e.(*ssa.Extract); ok && ex.Index == 0 {
+								objs = append(objs, ex)
+							}
+						}
+					}
+				} else {
+					objs = append(objs, ta)
+				}
+			}
+		}
+	}
+	if len(objs) == 0 {
+		r.Unknown("C20.pool", name, "sync.Pool.Get", posf(c, get), "object recycled between requests through a sync.Pool, use not understood")
+		return
+	}
+	for _, o := range objs {
+		st, ok := derefType(o.Type()).Underlying().(*types.Struct)
+		if !ok {
+			r.Unknown("C20.pool", name, "sync.Pool.Get "+o.Type().String(), posf(c, get), "object recycled between requests through a sync.Pool; only struct objects whose fields are all reset are understood")
+			continue
+		}
+		written := map[int]bool{}
+		whole := false
+		var walk func(v ssa.Value, d int)
+		walk = func(v ssa.Value, d int) {
+			if v.Referrers() == nil || d > 4 {
+				return
+			}
+			for _, ref := range *v.Referrers() {
+				switch x := ref.(type) {
+				case *ssa.FieldAddr:
+					if x.Referrers() != nil {
+						for _, rr := range *x.Referrers() {
+							if s, ok := rr.(*ssa.Store); ok && s.Addr == x && InstrDominates(get, s) {
+								written[x.Field] = true
+							}
+						}
+					}
+				case *ssa.Store:
+					if x.Addr == v {
+						whole = true
+					}
+				case *ssa.Phi:
+					walk(x, d+1)
+				}
+			}
+		}
+		walk(o, 0)
+		var missing []string
+		for i := 0; i < st.NumFields(); i++ {
+			if !written[i] && !whole {
+				missing = append(missing, st.Field(i).Name())
+			}
+		}
+		r.Check(len(missing) == 0, "C20.pool", name, "reset of "+Short(o.Type().String())+" from sync.Pool", posf(c, get), "every field is overwritten before use", "the object taken from the pool was used by an earlier request and these fields are not reset before use: "+strings.Join(missing, ", ")+": the earlier request's values are visible to this one")
 	}
 }
